@@ -13,7 +13,9 @@ def handle (line : String) : Json :=
     match getStr? j "engine" with
     | some "core" =>
       match getArr? j "prog" with
-      | some ops => Json.mkObj [("out", Json.arr (runProg ops).toArray)]
+      | some ops =>
+        let T := if getStr? j "mode" == some "spec" then Reference.tables else Generated.tables
+        Json.mkObj [("out", Json.arr (runProg T ops).toArray)]
       | none => errJson .badOp
     | _ => errJson .badOp
 
